@@ -86,6 +86,26 @@ var c03Entries = []c03Entry{
 			_ = m.UnmarshalDisallowUnknownField(&s)
 		}
 	}},
+	{"rawelems", func(r io.Reader, n bool, _, _ reflect.Type) (error, func()) {
+		// carriers as ELEMENTS: a list of raw messages for a list root, a compound of raw messages or of lists
+		// of raw messages for a compound root (a destination of the wrong shape is refused, which is fine)
+		var first [1]byte
+		if _, err := io.ReadFull(r, first[:]); err != nil {
+			return err, nil
+		}
+		rr := io.MultiReader(bytes.NewReader(first[:]), r)
+		var dst any
+		switch {
+		case first[0] == 10 && n:
+			dst = new(map[string][]nbt.RawMessage)
+		case first[0] == 10:
+			dst = new(map[string]nbt.RawMessage)
+		default:
+			dst = new([]nbt.RawMessage)
+		}
+		_, err := newDec(rr, n, false).Decode(dst)
+		return err, nil
+	}},
 	{"snbt", func(r io.Reader, n bool, _, _ reflect.Type) (error, func()) {
 		var m nbt.StringifiedMessage
 		_, err := newDec(r, n, false).Decode(&m)
